@@ -212,6 +212,20 @@ fn step(w: &mut World, s: &Value) -> (Vec<Value>, Vec<Value>) {
             let _ = w.c.call1(req.into());
             (vec![], vec![])
         }
+        "ModifySub" => {
+            let id = *w.sub_real.get(&geti(s, "sub")).unwrap_or(&0);
+            let req = ModifySubscriptionRequest {
+                request_header: w.c.header(),
+                subscription_id: id,
+                requested_publishing_interval: (geti(s, "itv") * UNIT_MS) as f64,
+                requested_lifetime_count: geti(s, "lt") as u32,
+                requested_max_keep_alive_count: geti(s, "ka") as u32,
+                max_notifications_per_publish: 0,
+                priority: geti(s, "prio") as u8,
+            };
+            let _ = w.c.call1(req.into());
+            (vec![], vec![])
+        }
         "SetPubMode" => {
             let id = *w.sub_real.get(&geti(s, "sub")).unwrap_or(&0);
             let req = SetPublishingModeRequest {
